@@ -120,7 +120,12 @@ func (c *RowCollector) collectRowsThatStayedTheSame() error {
 		}
 		for _, row := range blk {
 			hash.Reset()
-			_, err := hash.Write(enc.Encode(slice.IndicesToValues(row, c.baseT.PK)))
+			pkVals := row
+			if len(c.baseT.PK) > 0 {
+				pkVals = slice.IndicesToValues(row, c.baseT.PK)
+			}
+			// without a primary key the whole row identifies it (see objects.IndexBlock)
+			_, err := hash.Write(enc.Encode(pkVals))
 			if err != nil {
 				return err
 			}
